@@ -419,11 +419,29 @@ def run(case, ctx):
         return
     doc = lines + groups
     rng.shuffle(doc)
-    rr = call(ctx, "Gfa(list)", gfapy.Gfa, doc, version="gfa2")
-    if not rr.ok:
-        ctx.violation("valid-document-refused/%s" % rr.cls(), "%r: %s" % (doc, str(rr.exc)[:200]), prop="C01")
-        return
-    g = rr.value
+    if rng.random() < 0.4:
+        # the lines arrive one by one and every group present is queried after each arrival
+        # (the answers while the graph is incomplete are not judged, they may be errors): what
+        # the queries leave behind must not change the answers on the complete graph
+        ctx.add("kinds", "queried-while-incomplete")
+        g = gfapy.Gfa(version="gfa2", vlevel=rng.choice([0, 1]))
+        for l in doc:
+            ar = call(ctx, "add_line(str)", g.add_line, l)
+            if not ar.ok:
+                ctx.violation("valid-document-refused/%s" % ar.cls(), "%r: %s" % (doc, str(ar.exc)[:200]), prop="C01")
+                return
+            for grp in list(g.paths) + list(g.sets):
+                for q in (("captured_path", "captured_segments") if grp.record_type == "O" else ("induced_set",)):
+                    qr = call(ctx, q + " (incomplete graph)", lambda: getattr(grp, q))
+                    ctx.count("early_queries")
+                    if not qr.ok:
+                        ctx.count("early_queries_refused")
+    else:
+        rr = call(ctx, "Gfa(list)", gfapy.Gfa, doc, version="gfa2")
+        if not rr.ok:
+            ctx.violation("valid-document-refused/%s" % rr.cls(), "%r: %s" % (doc, str(rr.exc)[:200]), prop="C01")
+            return
+        g = rr.value
     texts = {gl.split("\t")[1]: gl for gl in groups}
     for name, exp in case["expect"].items():
         grp = g.line(name)
